@@ -140,7 +140,7 @@ Lemma lex_var_contra fr pr rest x :
 Proof.
   intros K Hl Hv. cbn [var_ok] in Hv. destruct (fisfunc fr).
   - apply (K_disj _ _ _ K x Hl Hv).
-  - destruct Hv as [Hn _]. apply Hn. unfold pnames. apply in_app_iff. right. exact Hl.
+  - destruct Hv as [Hn _]. apply (pall_pnames _ _ Hn). unfold pnames. apply in_app_iff. right. exact Hl.
 Qed.
 
 (* pushing a fresh scope does not change what the older labels mean *)
